@@ -68,6 +68,8 @@ impl SwiftField for Field60F {
     where
         Self: Sized,
     {
+        super::swift_utils::require_ascii(input, "Field 60F")?;
+
         // Format: 1!a6!n3!a15d - DebitCredit + Date + Currency + Amount
         if input.len() < 10 {
             return Err(ParseError::InvalidFormat {
@@ -119,6 +121,8 @@ impl SwiftField for Field60M {
     where
         Self: Sized,
     {
+        super::swift_utils::require_ascii(input, "Field 60M")?;
+
         // Format: 1!a6!n3!a15d - DebitCredit + Date + Currency + Amount
         if input.len() < 10 {
             return Err(ParseError::InvalidFormat {
